@@ -486,6 +486,8 @@ ada_really_inline bool url_aggregator::parse_host(std::string_view input) {
           " bytes]");
   ADA_ASSERT_TRUE(validate());
   ADA_ASSERT_TRUE(!helpers::overlaps(input, buffer));
+  // The host type describes the host being parsed, not the previous one.
+  host_type = DEFAULT;
   if (input.empty()) {
     return is_valid = false;
   }  // technically unnecessary.
